@@ -439,8 +439,18 @@ func TestC31(t *testing.T) {
 					r.Violation("format.not-idempotent."+p.Name+".token", "the second pass lets a // comment swallow what follows it on the line", c.ID,
 						wit(map[string]any{"classes": classNames(ds), "first_difference": firstDiffContext(f1, f2), "formatted_once": witnessText(f1), "formatted_twice": witnessText(f2), "reparse_errors": o2.NErr}))
 				} else {
+					// all recorded idempotence defects of the unchanged tree need a comment in the input; whether the input
+					// has one is part of the signature, so that a defect on comment-free input is a different violation
+					flavour := " [input without comments]"
+					if hasComments(text) {
+						flavour = " [input with comments]"
+					}
 					for _, d := range ds {
-						r.Violation("format.not-idempotent."+p.Name+"."+classCategory(d.Class), d.Class, c.ID,
+						shape := ""
+						if nb, ok := d.Detail["neighbours"].(string); ok {
+							shape = fmt.Sprintf(" (%s: %v, in %v)", nb, d.Detail["whitespace"], d.Detail["context"])
+						}
+						r.Violation("format.not-idempotent."+p.Name+"."+classCategory(d.Class), d.Class+shape+flavour, c.ID,
 							wit(map[string]any{"detail": d.Detail, "first_difference": firstDiffContext(f1, f2), "formatted_once": witnessText(f1), "formatted_twice": witnessText(f2), "reparse_errors": o2.NErr}))
 					}
 				}
@@ -471,4 +481,26 @@ func firstErrorMessage(o *parseOutcome) string {
 		}
 	}
 	return ""
+}
+
+// hasComments reports whether the text has a comment token (strings are lexed, so "//" inside a string does not count).
+// A text the token view cannot handle counts as having comments (the conservative side: it can only mask).
+func hasComments(text string) bool {
+	v, ok := viewOf(text)
+	if !ok {
+		return true
+	}
+	for _, t := range v.Toks {
+		for _, it := range t.Lead {
+			if it.Comment {
+				return true
+			}
+		}
+	}
+	for _, it := range v.Trail {
+		if it.Comment {
+			return true
+		}
+	}
+	return false
 }
